@@ -21,16 +21,19 @@ type verifPHostList struct{ set stringset.Set }
 func (h *verifPHostList) Resolve() stringset.Set { return h.set.Copy() }
 
 // verifPFiltered is the statement's rule evaluated on the ghost list of failure
-// times fs (non-decreasing) at instant now: some failure f no older than ft has
-// at least fails recorded failures in [f-ft, f].
+// times fs at instant now: some failure f_i no older than ft has at least
+// `fails` recorded failures in [f_i-ft, f_i]. Because fs is non-decreasing, "at
+// least k of f_0..f_i lie within ft before f_i" is the same as "the k-th most
+// recent of them, f_(i-k+1), does" — written that way (k ranges over the
+// possible values of fails) to keep the solver's formula free of counters.
 func verifPFiltered(fs []int64, now, ft int64, fails int) bool {
 	res := false
 	for i := range fs {
-		cnt := 0
-		for j := 0; j <= i; j++ {
-			cnt += verif.Ite(fs[i]-fs[j] <= ft, 1, 0)
+		enough := false
+		for k := 1; k <= 3 && k <= i+1; k++ {
+			enough = verif.Or(enough, verif.And(fails == k, fs[i]-fs[i-k+1] <= ft))
 		}
-		res = verif.Or(res, verif.And(now-fs[i] <= ft, cnt >= fails))
+		res = verif.Or(res, verif.And(now-fs[i] <= ft, enough))
 	}
 	return res
 }
